@@ -2,9 +2,11 @@ package ingestsim
 
 import (
 	"bytes"
+	"compress/gzip"
 	"context"
 	"encoding/json"
 	"fmt"
+	"github.com/golang/snappy"
 	"hash/fnv"
 	"io"
 	"net/http"
@@ -104,16 +106,16 @@ func (r *fragReader) Close() error { return nil }
 
 // run state shared by actors
 type runState struct {
-	s       Scenario
-	ev      atomic.Int64
-	mu      sync.Mutex
-	reqs    []*ReqRec
-	nextID  int
-	db      *chfake.DB
-	exp     map[string]*ExpRow  // tag -> row
-	expVal  map[float64]*ExpRow // metric value -> row
+	s             Scenario
+	ev            atomic.Int64
+	mu            sync.Mutex
+	reqs          []*ReqRec
+	nextID        int
+	db            *chfake.DB
+	exp           map[string]*ExpRow  // tag -> row
+	expVal        map[float64]*ExpRow // metric value -> row
 	clientRetries int
-	hostile bool                // the run contains hostile requests (rows decoded from mutated bodies are not predictable)
+	hostile       bool // the run contains hostile requests (rows decoded from mutated bodies are not predictable)
 }
 
 func (st *runState) nextEv() int64 { return st.ev.Add(1) }
@@ -261,6 +263,22 @@ func (st *runState) client(sim *simrt.Sim, sys *System, ci int, c Client) {
 		id := st.nextID
 		st.mu.Unlock()
 		w := Encode(id, op, time.Now().UnixNano())
+		if op.Hostile == "" && w.Encoding == "" {
+			switch op.Enc {
+			case "gzip":
+				var zb bytes.Buffer
+				zw := gzip.NewWriter(&zb)
+				zw.Write(w.Body)
+				zw.Close()
+				w.Body, w.Encoding = zb.Bytes(), "gzip"
+			case "snappy":
+				var zb bytes.Buffer
+				zw := snappy.NewBufferedWriter(&zb)
+				zw.Write(w.Body)
+				zw.Close()
+				w.Body, w.Encoding = zb.Bytes(), "snappy"
+			}
+		}
 		if op.Hostile != "" {
 			for i, rc := range strings.Split(op.Hostile, "+") {
 				Mutate(w, rc, op.HostileN+i*31)
@@ -294,6 +312,9 @@ func (st *runState) client(sim *simrt.Sim, sys *System, ci int, c Client) {
 		req.Header.Set("Content-Type", w.ContentType)
 		if w.Encoding != "" {
 			req.Header.Set("Content-Encoding", w.Encoding)
+		}
+		if op.TTLHdr != "" {
+			req.Header.Set("X-Ttl-Days", op.TTLHdr)
 		}
 		rw := &respWriter{h: http.Header{}, rec: rec, ev: st.nextEv}
 		rec.StartEv = st.nextEv()
